@@ -14,7 +14,7 @@ import (
 func init() {
 	register(Property{ID: "C09", Level: "other", Run: runC09,
 		Technique: "static analysis: walk of the static type graph that env.loadEnvInternal meets at run time (conf.Conf, conf.Path behind OptionalPath), sibling agreement between every UnmarshalEnv and the JSON decoder of the same type (go/ssa), must-precede ordering on conf.Load, struct-tag rules",
-		Text: "Decides: every type reachable from conf.Conf through json-visible fields is one the environment loader supports (env.Unmarshaler, exactly string/int/uint/float64/bool, map[string]*T, struct, []string/[]uint/[]float64/[]struct, behind at most one pointer) - anything else makes Load fail or panic; every UnmarshalEnv funnels the value into the JSON decoder of the same receiver (directly, through jsonwrapper.Unmarshal, or - for OptionalPath - by recursing with the same prefix), so file and environment share one parser and one validation; no type whose file decoder is a custom UnmarshalJSON is filled field by field by the environment loader (that would bypass the file-side validation); conf.Load applies file, then RTSP_ variables, then MTX_ variables, then Validate, all on the same object, on every successful path; json tags are of the two forms the key derivation understands and give distinct upper-case keys per struct. Does not decide value-level equivalence: quoting of environment strings into JSON without escaping, 32-bit parsing of int/uint, map keys are lower-cased and cannot contain '_'.",
+		Text: "Decides: every type reachable from conf.Conf through json-visible fields is one the environment loader supports (env.Unmarshaler, exactly string/int/uint/float64/bool, map[string]*T, struct, []string/[]uint/[]float64/[]struct, behind at most one pointer) - anything else makes Load fail or panic; every UnmarshalEnv funnels the value into the JSON decoder of the same receiver (directly, through jsonwrapper.Unmarshal, or - for OptionalPath - by recursing with the same prefix), so file and environment share one parser and one validation; no type whose file decoder is a custom UnmarshalJSON is filled field by field by the environment loader (that would bypass the file-side validation); conf.Load applies file, then RTSP_ variables, then MTX_ variables, then Validate, all on the same object, on every successful path; json tags are of the two forms the key derivation understands and give distinct upper-case keys per struct; a list of structs addressed by MTX_<LIST>_<n>_<FIELD> is built in index order: the items are visited by a counter from 0 in steps of 1, the key of an item is the decimal rendering of that same counter, preloaded positions are merged in place at Index(counter), reflect.Append (which places at Len) is used only past the existing positions, and the visit does not end while variables for the current position exist - so item n lands at position n as in YAML. Does not decide lists whose indexes have gaps (not expressible in YAML), a different but correct construction order (e.g. indexes parsed to integers and sorted numerically would have to be re-justified), nor value-level equivalence: quoting of environment strings into JSON without escaping, 32-bit parsing of int/uint, map keys are lower-cased and cannot contain '_'.",
 		Note: "trusted: reflect semantics of env.loadEnvInternal (its case analysis is mirrored by the walk; the mirror is cross-checked against the type identities and kinds the function tests), encoding/json"})
 	addMutants(
 		Mutant{"C09", "duration-env-own-parser", "internal/conf/duration.go",
@@ -35,6 +35,14 @@ func init() {
 			"	UDPReadBufferSize   uint            `json:\"udpReadBufferSize\"`", "	UDPReadBufferSize   uint            `json:\"udpReadBufferSize\"`\n	UDPWriteBufferSize  int64           `json:\"udpWriteBufferSize\"`", "C09.env_loadable"},
 		Mutant{"C09", "tag-with-foreign-option", "internal/conf/conf.go",
 			"	SysLogPrefix        string          `json:\"sysLogPrefix\"`", "	SysLogPrefix        string          `json:\"sysLogPrefix,omitzero\"`", "C09.tags"},
+		Mutant{"C09", "list-items-in-key-order-not-index-order", "internal/conf/env/env.go",
+			"				for i := 0; ; i++ {\n					itemPrefix := prefix + \"_\" + strconv.FormatInt(int64(i), 10)\n					if !envHasAtLeastAKeyWithPrefix(env, itemPrefix) && (prv.IsZero() || prv.Elem().Len() <= i) {\n						break\n					}\n",
+			"				var idxs []string\n				seenIdx := map[string]bool{}\n				for k := range env {\n					if strings.HasPrefix(k, prefix+\"_\") {\n						idx, _, _ := strings.Cut(k[len(prefix)+1:], \"_\")\n						if _, err := strconv.ParseUint(idx, 10, 31); err == nil && !seenIdx[idx] {\n							seenIdx[idx] = true\n							idxs = append(idxs, idx)\n						}\n					}\n				}\n				for j := 1; j < len(idxs); j++ {\n					for k := j; k > 0 && idxs[k] < idxs[k-1]; k-- {\n						idxs[k], idxs[k-1] = idxs[k-1], idxs[k]\n					}\n				}\n				for _, idx := range idxs {\n					i, _ := strconv.Atoi(idx)\n					itemPrefix := prefix + \"_\" + idx\n", "C09.list_index"},
+		Mutant{"C09", "list-keys-one-based", "internal/conf/env/env.go",
+			"					itemPrefix := prefix + \"_\" + strconv.FormatInt(int64(i), 10)\n", "					itemPrefix := prefix + \"_\" + strconv.FormatInt(int64(i+1), 10)\n", "C09.list_index"},
+		Mutant{"C09", "list-stops-at-file-length", "internal/conf/env/env.go",
+			"					if !envHasAtLeastAKeyWithPrefix(env, itemPrefix) && (prv.IsZero() || prv.Elem().Len() <= i) {\n						break\n					}\n",
+			"					if prv.IsZero() || prv.Elem().Len() <= i {\n						break\n					}\n", "C09.list_index"},
 		Mutant{"C09", "map-of-values", "internal/conf/conf.go",
 			"	OptionalPaths map[string]*OptionalPath `json:\"paths\"`", "	OptionalPaths map[string]*OptionalPath `json:\"paths\"`\n	Extra         map[string]WebRTCICEServer `json:\"extra\"`", "C09.env_loadable"},
 	)
@@ -49,7 +57,7 @@ func runC09(c *Ctx) {
 	c09EnvPreserves(c, p)
 	c.Explain = "E3: the type graph env.loadEnvInternal walks (Conf; Path behind OptionalPath.UnmarshalEnv → env.Load(prefix, Values), Values being the pointer-ised copy of Path) - rule env_loadable per position; " +
 		"E7: env_reaches_json per UnmarshalEnv (every non-empty-value return is the result of (*T).UnmarshalJSON(recv, …) / jsonwrapper.Unmarshal(…, recv) / env.Load(prefix, recv.Values)); json_validation_not_bypassed per struct type that is filled field by field although it has a custom UnmarshalJSON; " +
-		"E1: load_order on conf.Load (loadFromFile ≺ env.Load(\"RTSP\") ≺ env.Load(\"MTX\") ≺ Validate on the same *Conf, success return passes the nil test of each); tags (options ⊆ {omitempty}, non-empty names, distinct upper-case keys per struct); loader_mirror (the identities/kinds tested by env.loadEnvInternal are the ones the walk assumes). " +
+		"E1: load_order on conf.Load (loadFromFile ≺ env.Load(\"RTSP\") ≺ env.Load(\"MTX\") ≺ Validate on the same *Conf, success return passes the nil test of each); tags (options ⊆ {omitempty}, non-empty names, distinct upper-case keys per struct); loader_mirror (the identities/kinds tested by env.loadEnvInternal are the ones the walk assumes); list_index (go/ssa on the reflect.Append site of env.loadEnvInternal: the appended item was filled by loadEnvInternal(env, $1 + \"_\" + decimal(I), item); I is phi(0, I+1); every Index() on the destination list uses I; Append is reached from the loop head only past !(I < Len(list)) or on a list that does not exist; a nil return is reached from the loop head only past !envHasAtLeastAKeyWithPrefix(env, key(I))). " +
 		"NOT decided: value-level equivalence (unescaped quoting of the environment string into JSON, ParseInt(…,32) vs JSON numbers, lower-casing of map keys, keys containing '_')."
 	c.Assume = []string{
 		"reflect behaves as documented; env.loadEnvInternal's case analysis is the one mirrored by the walk (checked by loader_mirror on its constants)",
@@ -96,6 +104,8 @@ func runC09(c *Ctx) {
 
 	c09LoadOrder(c, p)
 	c09LoaderMirror(c, p)
+	// MTX_<LIST>_<n>_<FIELD>: item n lands at position n (prop_r3_c09.go)
+	c09ListIndex(c, p)
 }
 
 type envWalk struct {
